@@ -132,6 +132,8 @@ enum Res {
     Read { ok: bool },
     Granted,
     NotGranted,
+    /// make_mut redirected the handle to a fresh allocation (the old one was given up)
+    Cloned,
     Value,
     Handle(usize),
     Missing,
@@ -256,13 +258,17 @@ fn uninstall() {
 struct WState<T> {
     handles: Vec<Arc<T>>,
     unique: Option<UniqueArc<T>>,
+    /// a handle whose `get_mut` / `make_mut` handed out `&mut T` (kept as a raw pointer while the grant lasts)
+    mut_handle: Option<(Arc<T>, *mut T)>,
     pending: Option<Arc<T>>,
     moved: Vec<T>,
+    /// handles that `make_mut` redirected to a fresh allocation of their own
+    others: Vec<Arc<T>>,
 }
 
 fn worker<T: Pay>(id: usize) {
     WID.with(|w| w.set(id));
-    let mut st: WState<T> = WState { handles: Vec::with_capacity(64), unique: None, pending: None, moved: Vec::with_capacity(16) };
+    let mut st: WState<T> = WState { handles: Vec::with_capacity(64), unique: None, mut_handle: None, pending: None, moved: Vec::with_capacity(16), others: Vec::with_capacity(16) };
     post(Msg::Done(Res::Unit));
     loop {
         let cmd = wait_cmd(id);
@@ -274,8 +280,10 @@ fn worker<T: Pay>(id: usize) {
             Cmd::Finish => {
                 st.handles.clear();
                 st.unique = None;
+                st.mut_handle = None;
                 st.pending = None;
                 st.moved.clear();
+                st.others.clear();
                 Res::Unit
             }
             Cmd::Clone => match st.handles.first() {
@@ -287,9 +295,10 @@ fn worker<T: Pay>(id: usize) {
                 None => Res::Missing,
             },
             Cmd::Read => {
-                let p: Option<*const T> = match (st.handles.first(), st.unique.as_ref()) {
-                    (Some(h), _) => Some(&**h as *const T),
-                    (None, Some(u)) => Some(&**u as *const T),
+                let p: Option<*const T> = match (st.handles.first(), st.unique.as_ref(), st.mut_handle.as_ref()) {
+                    (Some(h), _, _) => Some(&**h as *const T),
+                    (None, Some(u), _) => Some(&**u as *const T),
+                    (None, None, Some((_, p))) => Some(*p as *const T),
                     _ => None,
                 };
                 match p {
@@ -297,29 +306,48 @@ fn worker<T: Pay>(id: usize) {
                     None => Res::Missing,
                 }
             }
-            Cmd::Write => match st.unique.as_mut() {
-                Some(u) => {
+            Cmd::Write => match (st.unique.as_mut(), st.mut_handle.as_ref()) {
+                (Some(u), _) => {
                     let p: &mut T = &mut **u;
                     let ok = T::magic_ok(p as *const T);
                     p.bump();
                     Res::Read { ok }
                 }
-                None => Res::Missing,
+                (None, Some((_, p))) => {
+                    let ok = T::magic_ok(*p as *const T);
+                    unsafe { (**p).bump() };
+                    Res::Read { ok }
+                }
+                _ => Res::Missing,
             },
-            Cmd::Ungrant => match st.unique.take() {
-                Some(u) => {
+            Cmd::Ungrant => match (st.unique.take(), st.mut_handle.take()) {
+                (Some(u), _) => {
                     st.handles.push(u.shareable());
                     Res::Unit
                 }
-                None => Res::Missing,
+                (None, Some((h, _))) => {
+                    st.handles.push(h);
+                    Res::Unit
+                }
+                _ => Res::Missing,
             },
-            Cmd::MoveOut => match st.unique.take() {
-                Some(u) => {
+            Cmd::MoveOut => match (st.unique.take(), st.mut_handle.take()) {
+                (Some(u), _) => {
                     let v = UniqueArc::into_inner(u);
                     st.moved.push(v);
                     Res::Value
                 }
-                None => Res::Missing,
+                (None, Some((h, _))) => match Arc::try_unwrap(h) {
+                    Ok(v) => {
+                        st.moved.push(v);
+                        Res::Value
+                    }
+                    Err(a) => {
+                        st.handles.push(a);
+                        Res::NotGranted
+                    }
+                },
+                _ => Res::Missing,
             },
             Cmd::Take => match st.handles.pop() {
                 Some(h) => Res::Handle(Arc::into_raw(h) as usize),
@@ -341,6 +369,49 @@ fn worker<T: Pay>(id: usize) {
                 match st.pending.take() {
                     None => Res::Missing,
                     Some(h) => {
+                        if kind >= 10 {
+                            // further entry points (free schedules only)
+                            let r = std::panic::catch_unwind(std::panic::AssertUnwindSafe(|| {
+                                let mut h = h;
+                                match kind {
+                                    10 => {
+                                        let before = Arc::heap_ptr(&h) as *const u8 as usize;
+                                        let p = Arc::make_mut(&mut h) as *mut T;
+                                        let same = Arc::heap_ptr(&h) as *const u8 as usize == before;
+                                        (if same { Res::Granted } else { Res::Cloned }, Some(h), p, None)
+                                    }
+                                    11 => match Arc::get_mut(&mut h).map(|r| r as *mut T) {
+                                        Some(p) => (Res::Granted, Some(h), p, None),
+                                        None => (Res::NotGranted, Some(h), std::ptr::null_mut(), None),
+                                    },
+                                    12 => match Arc::try_unwrap(h) {
+                                        Ok(v) => (Res::Value, None, std::ptr::null_mut(), Some(v)),
+                                        Err(a) => (Res::NotGranted, Some(a), std::ptr::null_mut(), None),
+                                    },
+                                    _ => {
+                                        let _ = h.is_unique();
+                                        (Res::NotGranted, Some(h), std::ptr::null_mut(), None)
+                                    }
+                                }
+                            }));
+                            match r {
+                                Ok((res, h, p, v)) => {
+                                    if let Some(v) = v {
+                                        st.moved.push(v);
+                                    }
+                                    if let Some(h) = h {
+                                        match res {
+                                            Res::Granted => st.mut_handle = Some((h, p)),
+                                            Res::Cloned => st.others.push(h),
+                                            _ => st.handles.push(h),
+                                        }
+                                    }
+                                    post(Msg::Done(res));
+                                }
+                                Err(_) => post(Msg::Done(Res::Panicked)),
+                            }
+                            continue;
+                        }
                         let r = std::panic::catch_unwind(std::panic::AssertUnwindSafe(|| match kind {
                             6 => {
                                 drop(h);
@@ -652,12 +723,16 @@ fn free_label(c: &mut Ctl, kind: u64, t: usize, arg: usize) -> Option<Vec<u64>> 
                             Msg::Done(_) => break,
                         }
                     }
-                    c.owned[t] -= 1;
                     c.granted[t] = false;
-                    c.det.destroy(t, K_MOVEOUT);
-                    if c.scan_allocator() {
-                        c.det.free(t);
-                        c.real_freed = true;
+                    if let Msg::Done(Res::Value) = m {
+                        c.owned[t] -= 1;
+                        c.det.destroy(t, K_MOVEOUT);
+                        if c.scan_allocator() {
+                            c.det.free(t);
+                            c.real_freed = true;
+                        }
+                    } else if let Msg::Done(Res::Panicked) = m {
+                        c.panics += 1;
                     }
                 }
             }
@@ -673,7 +748,7 @@ fn free_label(c: &mut Ctl, kind: u64, t: usize, arg: usize) -> Option<Vec<u64>> 
                 c.det.send(t, arg);
             }
         }
-        6 | 7 | 8 => {
+        6 | 7 | 8 | 10 | 11 | 12 | 13 => {
             if nh(c, t) == 0 || busy(c, t) || c.granted[t] {
                 return None;
             }
